@@ -154,6 +154,37 @@ Theorem C03_extract_output_is_blob :
 Proof. exact extract_output_is_blob. Qed.
 Print Assumptions C03_extract_output_is_blob.
 
+(* Readers (`desync cat`, io.Copy from the index read-seeker): when the copy reports success
+   the blob was copied -- for every verifying stack. *)
+Theorem C03_copy_index_sound :
+  forall H zcomp zdecomp (s : stack) (null_id : id) (null_data : bytes) (rows : index)
+         (w : world) (out : bytes) (w' : world) (blob : bytes),
+  verifying s = true -> H null_data = null_id -> index_describes H rows blob ->
+  copy_index H zcomp zdecomp s null_id null_data rows w = (out, true, w') -> out = blob \/ Collision H.
+Proof. exact copy_index_sound. Qed.
+Print Assumptions C03_copy_index_sound.
+
+(* Before commit 898d634 IndexPos.Read handed a store error that IS io.EOF (the casync protocol
+   client after its server went away) on unchanged: the copy then ended with success and a
+   truncated output, where the repaired reader fails ... *)
+Theorem C03_pre898d634_copy_refuted :
+  forall H zcomp zdecomp (s : stack) (null_id : id) (null_data : bytes) (r : id * nat) (rest : index) (w w1 : world),
+  readseeker_load_err H zcomp zdecomp s null_id null_data r w = (Err EEof, w1) ->
+  copy_index_pre898d634 H zcomp zdecomp s null_id null_data (r :: rest) w = ([], true, w1)
+  /\ copy_index H zcomp zdecomp s null_id null_data (r :: rest) w = ([], false, w1).
+Proof. exact copy_pre898d634_truncates. Qed.
+Print Assumptions C03_pre898d634_copy_refuted.
+
+(* ... and it was sound only for stacks that never return a bare io.EOF, e.g. everything the
+   command line builds (MultiStoreWithCache always puts a StoreRouter, which wraps errors, on top). *)
+Theorem C03_pre898d634_copy_sound_without_eof :
+  forall H zcomp zdecomp (s : stack) (null_id : id) (null_data : bytes) (rows : index)
+         (w : world) (out : bytes) (w' : world) (blob : bytes),
+  verifying s = true -> never_eof s = true -> H null_data = null_id -> index_describes H rows blob ->
+  copy_index_pre898d634 H zcomp zdecomp s null_id null_data rows w = (out, true, w') -> out = blob \/ Collision H.
+Proof. exact copy_pre898d634_sound_no_eof. Qed.
+Print Assumptions C03_pre898d634_copy_sound_without_eof.
+
 (* ---------- non-vacuity ---------- *)
 (* H = sum of bytes, "zstd" = prefix byte 7. *)
 Definition ex_H (b : bytes) : id := fold_right N.add 0%N b.
@@ -205,6 +236,18 @@ Example C03_ex_proto_flip : ex_get (Proto 0 (ex_leaf 0 true)) 6%N (fun _ _ => So
 Proof. vm_compute. reflexivity. Qed.
 Example C03_ex_proto_good : ex_get (Proto 0 (ex_leaf 0 true)) 6%N (fun _ _ => Some [7; 1; 2; 3]%N) = Ok (Some [1; 2; 3]%N).
 Proof. vm_compute. reflexivity. Qed.
+(* the premise of C03_pre898d634_copy_refuted is met by a verifying stack: RemoteSSH in front of
+   `desync pull` over a store with a flipped object; index [(6, 3)] describing [1;2;3] *)
+Example C03_ex_eof_truncation :
+  let s := Proto 0 (ex_leaf 0 true) in
+  let w := ex_world (fun _ _ => Some [9; 1; 2; 3]%N) in
+  verifying s = true /\ index_describes ex_H [(6%N, 3)] [1; 2; 3]%N
+  /\ fst (readseeker_load_err ex_H ex_zc ex_zd s 0%N [] (6%N, 3) w) = Err EEof
+  /\ fst (copy_index_pre898d634 ex_H ex_zc ex_zd s 0%N [] [(6%N, 3)] w) = ([], true)
+  /\ fst (copy_index ex_H ex_zc ex_zd s 0%N [] [(6%N, 3)] w) = ([], false)
+  /\ never_eof (Router [s]) = true
+  /\ fst (copy_index_pre898d634 ex_H ex_zc ex_zd (Router [s]) 0%N [] [(6%N, 3)] w) = ([], false).
+Proof. vm_compute. repeat split; reflexivity. Qed.
 (* the consumers: an index of two rows over the blob [1;2;3;4] *)
 Example C03_ex_extract :
   let s := Router [ex_leaf 0 false; ex_leaf 1 false] in
